@@ -946,4 +946,360 @@ theorem balanced_model (st : Source) (t : List Char) (hc : st.inLineComment = fa
   exact balanced_fold _ st.indent _ st Track.init (by simp [Track.init, hc]) (by simp [Track.init])
     (by simp [Track.init]) hb
 
+/-! ### reachable buffers -/
+
+/-- Buffers built from `Source::default()` by the operations of the model, where every buffer
+passed to `append_src` is itself built that way. -/
+inductive Reachable : Source → Prop
+  | empty : Reachable Source.empty
+  | step {st st' : Source} (op : Op) : Reachable st → (∀ o, op = .appendSrc o → Reachable o) →
+      st.step op = some st' → Reachable st'
+
+theorem not_lineStart_append (x y : List Char) (hy : y ≠ []) (hn : '\n' ∉ y) : ¬ LineStart (x ++ y) := by
+  intro h
+  rcases h with h | h
+  · simp at h; exact hy h.2
+  · rw [List.getLast?_append] at h
+    cases hl : y.getLast? with
+    | none => exact hy (List.getLast?_eq_none_iff.mp hl)
+    | some c =>
+      rw [hl] at h
+      simp at h
+      exact hn (List.mem_of_getLast? (h ▸ hl))
+
+theorem not_lineStart_append' (x y : List Char) (hx : ¬ LineStart x) (hn : '\n' ∉ y) : ¬ LineStart (x ++ y) := by
+  cases y with
+  | nil => simpa using hx
+  | cons a y => exact not_lineStart_append x (a :: y) (by simp) hn
+
+/-- inside a line comment the buffer is not at a line start -/
+def CommentMid (st : Source) : Prop := st.inLineComment = true → ¬ LineStart st.s
+
+
+theorem trimStart_ne_nil_of_trim (line : List Char) (h : trim line ≠ []) : trimStart line ≠ [] := by
+  intro h2; apply h; simp [trim, h2, trimEnd]
+
+theorem startsWith_ne_nil (s p : List Char) (hp : p ≠ []) (h : startsWith s p = true) : s ≠ [] := by
+  intro hs; subst hs
+  cases p with
+  | nil => exact hp rfl
+  | cons a p => simp [startsWith, List.isPrefixOf] at h
+
+theorem commentMid_pushLine (single interp : Bool) (line : List Char) (st : Source) (hn : '\n' ∉ line)
+    (h : CommentMid st) : CommentMid (pushLine single interp line st) := by
+  intro hcm
+  simp only [pushLine] at hcm ⊢
+  -- no pop inside a comment
+  have hnp : (interp && !(st.inLineComment || interp && startsWith (trim line) ['/', '/']) &&
+      startsWith (trim line) ['}'] && endsWith (if (!st.continuingLine && !line.isEmpty) = true then st.s ++ spaces st.indent else st.s) [' ', ' ']) = false := by
+    rw [hcm]; simp
+  simp only [hnp, Bool.false_eq_true, if_false]
+  have hshown : '\n' ∉ (if single then line else trimStart line) := shownM_noNl single line hn
+  rw [Bool.or_eq_true] at hcm
+  rcases hcm with hold | hnew
+  · apply not_lineStart_append' _ _ _ hshown
+    split
+    · apply not_lineStart_append' _ _ (h hold)
+      intro hm; simp [spaces] at hm
+    · exact h hold
+  · simp only [Bool.and_eq_true] at hnew
+    have htr : trim line ≠ [] := startsWith_ne_nil _ _ (by simp) hnew.2
+    apply not_lineStart_append _ _ _ hshown
+    split
+    · intro hl; subst hl; exact htr rfl
+    · exact trimStart_ne_nil_of_trim line htr
+
+theorem commentMid_pushPiece (single interp : Bool) (p : List Char × Bool) (st : Source) (hn : '\n' ∉ p.1)
+    (h : CommentMid st) : CommentMid (pushPiece single interp st p) := by
+  unfold pushPiece
+  split
+  · intro hc; simp [newline] at hc
+  · exact commentMid_pushLine single interp _ st (lineOf_noNl p hn) h
+
+theorem commentMid_pushStrImpl (st : Source) (t : List Char) (interp : Bool) (h : CommentMid st) :
+    CommentMid (pushStrImpl st t interp) := by
+  rw [pushStrImpl_eq]
+  have hn := splitNl_noNl t
+  generalize ((splitNl t).length == 1) = single
+  generalize splitNl t = ps at *
+  induction ps generalizing st with
+  | nil => exact h
+  | cons p ps ih =>
+    rw [List.foldl_cons]
+    exact ih _ (commentMid_pushPiece single interp p st (hn p (by simp)) h) (fun q hq => hn q (by simp [hq]))
+
+theorem reachable_commentMid (st : Source) (h : Reachable st) : CommentMid st := by
+  induction h with
+  | empty => intro hc; simp [Source.empty] at hc
+  | step op _ ho hs ih iho =>
+    cases op with
+    | pushStr t => simp [step] at hs; subst hs; exact commentMid_pushStrImpl _ t true ih
+    | pushLit t => simp [step] at hs; subst hs; exact commentMid_pushStrImpl _ t false ih
+    | indent n => simp [step] at hs; subst hs; exact ih
+    | deindent n =>
+      simp only [step, deindent] at hs
+      split at hs
+      · simp at hs; subst hs; exact ih
+      · simp at hs
+    | setIndent n => simp [step, setIndent] at hs; subst hs; exact ih
+    | appendSrc o =>
+      simp [step] at hs; subst hs
+      intro hc
+      have ho' := iho o rfl hc
+      simp only [appendSrc] at hc ⊢
+      intro hl
+      apply ho'
+      rcases hl with hl | hl
+      · left; simp at hl; exact hl.2
+      · by_cases hoe : o.s = []
+        · left; exact hoe
+        · right
+          rw [List.getLast?_append] at hl
+          cases hol : o.s.getLast? with
+          | none => exact absurd (List.getLast?_eq_none_iff.mp hol) hoe
+          | some c => rw [hol] at hl; simpa using hl
+
+/-! ### the model's histories as the spec side observes them -/
+
+/-- the request an operation is, as the spec side sees it -/
+def reqOf : Op → Req
+  | .pushStr t => .text true t
+  | .pushLit t => .text false t
+  | .indent n => .indent n
+  | .deindent n => .deindent n
+  | .setIndent n => .setIndent n
+  | .appendSrc o => .append o.s o.indent
+
+/-- what is observed after an operation: buffer, probed level, value returned by `set_indent` -/
+def obsAfter (st : Source) (op : Op) (st' : Source) : Obs :=
+  { indent := st'.indent, s := st'.s, old := match op with | .setIndent _ => some st.indent | _ => none }
+
+/-- the observed history of the model -/
+def observe (st : Source) : List Op → List (Req × Option Obs)
+  | [] => []
+  | op :: ops => match st.step op with
+    | none => [(reqOf op, none)]
+    | some st' => (reqOf op, some (obsAfter st op st')) :: observe st' ops
+
+/-- every buffer passed to `append_src` is itself reachable -/
+def WFOps (ops : List Op) : Prop := ∀ o, Op.appendSrc o ∈ ops → Reachable o
+
+/-- the observation before a step agrees with the state -/
+def ObsOf (prev : Obs) (st : Source) : Prop := prev.s = st.s ∧ prev.indent = st.indent
+
+theorem good_of_known (v : Verdict) (h : v.goodModuloKnown = true) (hc : v.content = .ok) : v.good = true := by
+  simp only [Verdict.goodModuloKnown, Verdict.good, Bool.and_eq_true] at h ⊢
+  simp [hc, h.1.1.1.1.2, h.1.1.1.2, h.1.1.2, h.1.2, h.2]
+
+/-- does the step keep content exactly (the `_partial` hypothesis for one step) -/
+def SafeStep (st : Source) : Op → Prop
+  | .pushStr t => applicable st.s t true = Loss.none
+  | .pushLit t => applicable st.s t false = Loss.none
+  | _ => True
+
+theorem pieces_sync (ps : List Piece) (tr : Track) : (ps.foldl Track.piece tr).sync = tr.sync := by
+  induction ps generalizing tr with
+  | nil => rfl
+  | cons p ps ih => rw [List.foldl_cons, ih]; rfl
+
+theorem step_text (st : Source) (tr : Track) (prev : Obs) (hprev : ObsOf prev st)
+    (hrel : tr.sync = true → Rel st tr) (interp : Bool) (t : List Char) (old : Option Nat) :
+    let st' := pushStrImpl st t interp
+    let v := stepVerdict tr prev (.text interp t) { indent := st'.indent, s := st'.s, old := old }
+    v.goodModuloKnown = true ∧
+    ((trackReq tr (.text interp t)).sync = true → Rel st' (trackReq tr (.text interp t))) ∧
+    (applicable st.s t interp = Loss.none → v.content = .ok) := by
+  intro st' v
+  have hsync' : (trackReq tr (.text interp t)).sync = tr.sync := pieces_sync _ _
+  cases hsy : tr.sync with
+  | false =>
+    refine ⟨?_, ?_, ?_⟩
+    · simp [v, stepVerdict, hsy, Verdict.goodModuloKnown]
+    · rw [hsync', hsy]; simp
+    · intro _; simp [v, stepVerdict, hsy]
+  | true =>
+    have hr := hrel hsy
+    have hr' : Rel st' (tr.pieces (piecesOf interp t)) := rel_text st tr hr interp t
+    have hcs := contentStep_model st t interp hr.ls
+    obtain ⟨hps, hpi⟩ := hprev
+    have h2 := lineIndent_model st tr hr interp t
+    have h3 : (interp || st'.indent == st.indent) = true := by
+      cases interp
+      · simp [st', literal_indent st t]
+      · rfl
+    have h4 : (!(interp && !tr.inComment && Balanced t) || st'.indent == st.indent) = true := by
+      cases hb : (interp && !tr.inComment && Balanced t)
+      · rfl
+      · simp only [Bool.and_eq_true, Bool.not_eq_true'] at hb
+        have hi : interp = true := hb.1.1
+        subst hi
+        simp [st', balanced_model st t (by rw [← hr.cm]; exact hb.1.2) hb.2]
+    have hc : v.content = contentStep st.s st'.s t interp := by
+      simp [v, stepVerdict, hsy, hps]
+    refine ⟨?_, fun _ => hr', ?_⟩
+    · have hne : (v.content != .other) = true := by rw [hc]; simpa using hcs.1
+      simp only [Verdict.goodModuloKnown, hne, Bool.true_and]
+      simp [v, stepVerdict, hsy, trackReq, hps, hpi]
+      refine ⟨⟨⟨?_, h2⟩, by simpa using h3⟩, by simpa using h4⟩
+      cases hok : (tr.pieces (piecesOf interp t)).levelOk
+      · exact Or.inl rfl
+      · exact Or.inr (decide_eq_true (hr'.lvl hok).symm)
+    · intro happ; rw [hc]; exact hcs.2 happ
+
+theorem step_good (st : Source) (tr : Track) (prev : Obs) (hprev : ObsOf prev st)
+    (hrel : tr.sync = true → Rel st tr) (op : Op) (hop : ∀ o, op = .appendSrc o → Reachable o)
+    (st' : Source) (hs : st.step op = some st') :
+    (stepVerdict tr prev (reqOf op) (obsAfter st op st')).goodModuloKnown = true ∧
+    ((trackReq tr (reqOf op)).sync = true → Rel st' (trackReq tr (reqOf op))) ∧
+    (SafeStep st op → (stepVerdict tr prev (reqOf op) (obsAfter st op st')).content = .ok) := by
+  cases op with
+  | pushStr t =>
+    simp only [step, Option.some.injEq] at hs; subst hs
+    exact step_text st tr prev hprev hrel true t none
+  | pushLit t =>
+    simp only [step, Option.some.injEq] at hs; subst hs
+    exact step_text st tr prev hprev hrel false t none
+  | indent n =>
+    simp only [step, Option.some.injEq] at hs; subst hs
+    obtain ⟨hps, hpi⟩ := hprev
+    cases hsy : tr.sync with
+    | false => simp [stepVerdict, hsy, Verdict.goodModuloKnown, reqOf, trackReq]
+    | true =>
+      have hr := hrel hsy
+      refine ⟨?_, fun _ => ⟨hr.mid, hr.cm, fun hok => ?_, hr.ls⟩, fun _ => ?_⟩
+      · simp only [stepVerdict, hsy, reqOf, trackReq, obsAfter, addIndent, hps, Verdict.goodModuloKnown]
+        cases hok : tr.levelOk
+        · simp
+        · simp [hr.lvl hok]
+      · simp only [trackReq, reqOf, addIndent] at hok ⊢
+        rw [hr.lvl hok]; simp
+      · simp [stepVerdict, hsy, reqOf, obsAfter, addIndent, hps]
+  | deindent n =>
+    simp only [step, deindent] at hs
+    split at hs
+    · rename_i hle
+      simp only [Option.some.injEq] at hs; subst hs
+      obtain ⟨hps, hpi⟩ := hprev
+      cases hsy : tr.sync with
+      | false => simp [stepVerdict, hsy, Verdict.goodModuloKnown, reqOf, trackReq]
+      | true =>
+        have hr := hrel hsy
+        refine ⟨?_, fun _ => ⟨hr.mid, hr.cm, fun hok => ?_, hr.ls⟩, fun _ => ?_⟩
+        · simp only [stepVerdict, hsy, reqOf, trackReq, obsAfter, hps, Verdict.goodModuloKnown]
+          cases hok : tr.levelOk
+          · simp
+          · simp [hr.lvl hok]; omega
+        · simp only [trackReq, reqOf] at hok ⊢
+          rw [hr.lvl hok]; omega
+        · simp [stepVerdict, hsy, reqOf, obsAfter, hps]
+    · simp at hs
+  | setIndent n =>
+    simp only [step, setIndent, Option.some.injEq] at hs; subst hs
+    obtain ⟨hps, hpi⟩ := hprev
+    cases hsy : tr.sync with
+    | false => simp [stepVerdict, hsy, Verdict.goodModuloKnown, reqOf, trackReq]
+    | true =>
+      have hr := hrel hsy
+      refine ⟨?_, fun _ => ⟨hr.mid, hr.cm, fun _ => rfl, hr.ls⟩, fun _ => ?_⟩
+      · simp [stepVerdict, hsy, reqOf, trackReq, obsAfter, hps, hpi, Verdict.goodModuloKnown]
+      · simp [stepVerdict, hsy, reqOf, obsAfter, hps]
+  | appendSrc o =>
+    simp only [step, Option.some.injEq] at hs; subst hs
+    obtain ⟨hps, hpi⟩ := hprev
+    cases hsy : tr.sync with
+    | false =>
+      refine ⟨by simp [stepVerdict, hsy, Verdict.goodModuloKnown], ?_, by simp [stepVerdict, hsy]⟩
+      simp only [reqOf, trackReq]
+      split <;> simp [hsy]
+    | true =>
+      have hr := hrel hsy
+      cases hdom : appendInDomain tr o.s with
+      | false =>
+        simp [stepVerdict, hsy, reqOf, trackReq, hdom, Verdict.goodModuloKnown]
+      | true =>
+        simp only [appendInDomain, Bool.and_eq_true, Bool.not_eq_true', Bool.or_eq_true,
+          List.isEmpty_iff, beq_iff_eq] at hdom
+        have hls : LineStart o.s := hdom.2
+        have hcm : o.inLineComment = false := by
+          cases h : o.inLineComment
+          · rfl
+          · exact absurd hls (reachable_commentMid o (hop o rfl) h)
+        have hcont : st.continuingLine = false := by rw [← hr.mid]; exact hdom.1
+        have hdom' : appendInDomain tr o.s = true := by
+          simp only [appendInDomain, Bool.and_eq_true, Bool.not_eq_true', Bool.or_eq_true,
+            List.isEmpty_iff, beq_iff_eq]; exact hdom
+        refine ⟨?_, fun _ => ⟨?_, ?_, fun hok => ?_, fun _ => ?_⟩, fun _ => ?_⟩
+        · simp only [stepVerdict, hsy, reqOf, trackReq, hdom', obsAfter, appendSrc, hps, Verdict.goodModuloKnown]
+          cases hok : tr.levelOk
+          · simp
+          · simp [hr.lvl hok]
+        · simp [trackReq, reqOf, hdom', appendSrc, hr.mid]
+        · simp [trackReq, reqOf, hdom', appendSrc, hcm]
+        · simp only [trackReq, reqOf, hdom', if_true, appendSrc] at hok ⊢
+          rw [hr.lvl hok]; simp
+        · simp only [appendSrc]
+          rcases hls with he | hl
+          · rw [he]; simpa using hr.ls hcont
+          · right; rw [List.getLast?_append, hl]; rfl
+        · simp [stepVerdict, hsy, reqOf, trackReq, hdom', obsAfter, appendSrc, hps]
+
+
+theorem step_none (st : Source) (op : Op) (hs : st.step op = none) :
+    ∃ n, op = .deindent n ∧ st.indent < n := by
+  cases op with
+  | deindent n =>
+    simp only [step, deindent] at hs
+    split at hs
+    · simp at hs
+    · exact ⟨n, rfl, by omega⟩
+  | _ => simp [step] at hs
+
+/-- every text step of the history keeps content exactly (no known loss is applicable) -/
+def SafeFrom (st : Source) : List Op → Prop
+  | [] => True
+  | op :: ops => SafeStep st op ∧ match st.step op with
+    | some st' => SafeFrom st' ops
+    | none => True
+
+/-- The C25 monitors hold of every observed history of the model (content: up to the known losses;
+exactly when no known loss is applicable). -/
+theorem monitor_model (ops : List Op) :
+    ∀ (st : Source) (tr : Track) (prev : Obs), ObsOf prev st → (tr.sync = true → Rel st tr) → WFOps ops →
+      (∀ v ∈ monitor tr prev (observe st ops), v.goodModuloKnown = true) ∧
+      (SafeFrom st ops → ∀ v ∈ monitor tr prev (observe st ops), v.good = true) := by
+  induction ops with
+  | nil => intro st tr prev _ _ _; simp [observe, monitor]
+  | cons op ops ih =>
+    intro st tr prev hprev hrel hwf
+    have hwf' : WFOps ops := fun o ho => hwf o (by simp [ho])
+    have hop : ∀ o, op = .appendSrc o → Reachable o := fun o ho => hwf o (by simp [ho])
+    cases hs : st.step op with
+    | none =>
+      obtain ⟨n, rfl, hlt⟩ := step_none st op hs
+      have hv : (!tr.sync || !tr.levelOk || mustPanic tr (.deindent n)) = true := by
+        cases hsy : tr.sync
+        · rfl
+        · cases hok : tr.levelOk
+          · rfl
+          · have := (hrel hsy).lvl hok
+            simp [mustPanic, this]; omega
+      simp only [observe, hs, reqOf, monitor, List.mem_singleton]
+      constructor
+      · intro v hv'; subst hv'; simp [Verdict.goodModuloKnown, hv]
+      · intro _ v hv'; subst hv'; simp [Verdict.good, hv]
+    | some st' =>
+      obtain ⟨hg, hr', hc⟩ := step_good st tr prev hprev hrel op hop st' hs
+      have hprev' : ObsOf (obsAfter st op st') st' := ⟨rfl, rfl⟩
+      obtain ⟨ih1, ih2⟩ := ih st' (trackReq tr (reqOf op)) (obsAfter st op st') hprev' hr' hwf'
+      simp only [observe, hs, monitor, List.mem_cons]
+      constructor
+      · rintro v (rfl | hv)
+        · exact hg
+        · exact ih1 v hv
+      · intro hsafe
+        simp only [SafeFrom, hs] at hsafe
+        rintro v (rfl | hv)
+        · exact good_of_known _ hg (hc hsafe.1)
+        · exact ih2 hsafe.2 v hv
+
 end Witverif.Text.Source
